@@ -590,6 +590,20 @@ func TestProp_AppendDecimal(t *testing.T) {
 				k := rapid.Int64Range(-100000000, 100000000).Draw(t, "k")
 				d := rapid.IntRange(0, 12).Draw(t, "d")
 				return float64(k) / math.Pow10(d)
+			}), rapid.Custom(func(t *rapid.T) float64 { // the neighbours of a rounding boundary: k + 0.5 -+ a few ulps
+				x := float64(rapid.Int64Range(-1000, 1000).Draw(t, "kh")) + 0.5
+				for n := rapid.IntRange(-3, 3).Draw(t, "ulps"); n != 0; {
+					if n > 0 {
+						x = math.Nextafter(x, math.Inf(1))
+						n--
+					} else {
+						x = math.Nextafter(x, math.Inf(-1))
+						n++
+					}
+				}
+				return x
+			}), rapid.Custom(func(t *rapid.T) float64 { // integers beyond 2^52: every one of them is exact
+				return math.Ldexp(1, rapid.IntRange(52, 62).Draw(t, "p2")) + float64(rapid.Int64Range(-1000, 1000).Draw(t, "off"))
 			}), rapid.Custom(func(t *rapid.T) float64 { // binary fractions: exact ties at dec < j
 				return math.Ldexp(float64(rapid.Int64Range(-4000, 4000).Draw(t, "m")), -rapid.IntRange(1, 8).Draw(t, "j"))
 			})).Draw(t, "f")
